@@ -30,11 +30,16 @@ def observe(m):
         return [[int(v) for v in x] for x in getattr(m, name)] if hasattr(m, name) else []
     o = {"cls": type(m).__name__, "nv": len(m.vertices),
          "v3d": 1 if all(type(v).__name__ == "Vec" and np.shape(v) == (3,) for v in m.vertices) else 0,
-         "E": lst("edges"), "F": lst("faces"), "C": lst("cells"), "hard": [], "att": [], "fc": [], "cc": [], "cf": []}
+         "E": lst("edges"), "F": lst("faces"), "C": lst("cells"), "hard": [], "hard_entries": [], "att": [], "fc": [], "cc": [], "cf": []}
     if hasattr(m, "edges"):
         if m.edges.has_attribute("hard_edges"):
             h = m.edges.get_attribute("hard_edges")
             o["hard"] = [i for i in range(len(m.edges)) if bool(h[i])]
+            # the library's own consumers (feature detection, the obj / medit writers) iterate over the ENTRIES of the flag, not over its values
+            try:
+                o["hard_entries"] = sorted(int(k) for k in h)
+            except TypeError:
+                o["hard_entries"] = list(o["hard"])
         if m.edges.has_attribute("tag"):
             a = m.edges.get_attribute("tag")
             o["att"] = [[i, int(a[i])] for i in range(len(m.edges)) if int(a[i]) != 0]
